@@ -25,9 +25,15 @@
     on its way to its `InputHandler`. It fails only if the application registered a handler of its own for
     `InputReadySignal` (such handlers run before the `InputHandler`'s) that re-enters the loop, and a further
     line is typed, handed off and dispatched in there — **even with a single loop level**:
-    `C06_order_within_level_needs_NoReadyReentry`.
+    `C06_order_within_level_needs_NoReadyReentry`. For applications that register no handler for `InputReadySignal`
+    (`NoReadyHandler c0`, a decidable condition on the start configuration) it is not needed:
+    `C06_order_no_ready_handler`, `C06_exactly_typed_order_single_level`.
+
+  For the harness: the right history classifier of finding K5 is `¬ NoReadyCovered` (not the routing-only flag
+  `¬ ReadyInTop`); order violations outside it are classified by `¬ NoReadyReentry` (a second, independent finding:
+  re-entrant dispatch of `InputReadySignal`).
 -/
-import Simpleline.Lemmas.InputOrderMain
+import Simpleline.Lemmas.InputOrderStatic
 import Simpleline.Props.C06
 
 namespace Simpleline
@@ -51,6 +57,16 @@ theorem C06_order_within_level (P : Prog) (c0 c : Cfg) (h0 : Started c0) (hU : U
     (hr : Reach P c0 c) (hC : NoReadyCovered c.tr) (hE : NoReadyReentry c.tr) :
     (inputLines c.log).Sublist (readLines c.log) :=
   order_reach h0 hU hF hr hC hE
+
+/-- **The same for applications without a handler for `InputReadySignal`** (`NoReadyHandler c0`: none registered
+before `run()`; the model has no later registration): between taking a successful `InputReadySignal` from the queue
+and calling the handler of its `InputHandler` no application code runs at all, so nothing can be dispatched in
+between, and only `NoReadyCovered` is left as a hypothesis on the history. It is still needed:
+the program of `C06_order_within_level_needs_NoReadyCovered` registers no such handler. -/
+theorem C06_order_no_ready_handler (P : Prog) (c0 c : Cfg) (h0 : Started c0) (hU : UserHandlers c0) (hF : NoForge P c0)
+    (hH : NoReadyHandler c0) (hr : Reach P c0 c) (hC : NoReadyCovered c.tr) :
+    (inputLines c.log).Sublist (readLines c.log) :=
+  order_reach_static h0 hU hF hH hr hC
 
 /-- **… with the positions made explicit.** There is a strictly increasing `f` such that the `k`-th line handed to an
 `input` callback is line number `f k` of the console input (the empty line beyond its end): equal texts typed twice
@@ -87,12 +103,19 @@ theorem C06_covered_levels_hold_no_line (P : Prog) (c0 c : Cfg) (h0 : Started c0
 /-! ### a single loop level -/
 
 /-- **Applications that never open a nested loop** (no modal screen, no `execute_new_loop`: the history has no
-`.openLevel`): `NoReadyCovered` holds by itself — there is never a covered level — and the lines reach `input()` in the
-order typed, each at most once, provided `NoReadyReentry`. That last hypothesis cannot be dropped:
-`C06_order_within_level_needs_NoReadyReentry` is a single-level program. -/
+`.openLevel`) **and register no handler for `InputReadySignal`**: the lines reach `input()` in the order typed, each
+at most once — no further hypothesis on the history (`NoReadyCovered` holds by itself: there is never a covered
+level). The condition on the handlers cannot be dropped: `C06_order_within_level_needs_NoReadyReentry` is a
+single-level program. -/
 theorem C06_exactly_typed_order_single_level (P : Prog) (c0 c : Cfg) (h0 : Started c0) (hU : UserHandlers c0)
-    (hF : NoForge P c0) (hr : Reach P c0 c) (hO : NoOpenLevel c.tr) (hE : NoReadyReentry c.tr) :
+    (hF : NoForge P c0) (hH : NoReadyHandler c0) (hr : Reach P c0 c) (hO : NoOpenLevel c.tr) :
     (inputLines c.log).Sublist (readLines c.log) :=
+  order_reach_static h0 hU hF hH hr (noReadyCovered_of_noOpen hO)
+
+/-- … or, with handlers for `InputReadySignal` registered, provided `NoReadyReentry`. -/
+theorem C06_exactly_typed_order_single_level_of_NoReadyReentry (P : Prog) (c0 c : Cfg) (h0 : Started c0)
+    (hU : UserHandlers c0) (hF : NoForge P c0) (hr : Reach P c0 c) (hO : NoOpenLevel c.tr)
+    (hE : NoReadyReentry c.tr) : (inputLines c.log).Sublist (readLines c.log) :=
   order_reach h0 hU hF hr (noReadyCovered_of_noOpen hO) hE
 
 /-- a history without `execute_new_loop` satisfies `NoReadyCovered` -/
@@ -109,7 +132,8 @@ def C06b_exC : Cfg := initCfg [.schedule 0 (some 7)] [] none ["hello".toList, ['
 example :
     let c := (runFuel C06b_exP 600 C06b_exC).1
     (runFuel C06b_exP 600 C06b_exC).2 = .returned ∧
-    UserHandlers C06b_exC ∧ C06b_exC.NoForge ∧ NoReadyCovered c.tr ∧ NoReadyReentry c.tr ∧ NoOpenLevel c.tr ∧
+    UserHandlers C06b_exC ∧ C06b_exC.NoForge ∧ NoReadyHandler C06b_exC ∧ NoReadyCovered c.tr ∧ NoReadyReentry c.tr ∧
+    NoOpenLevel c.tr ∧
     readLines c.log = ["hello".toList, ['x'], ['c']] ∧ inputLines c.log = ["hello".toList, ['x'], ['c']] := by
   decide +kernel
 
@@ -123,7 +147,8 @@ def C06b_modalC : Cfg := initCfg [.schedule 0 none] [] none ["one".toList, "two"
 
 example :
     let c := (runFuel C06b_modalP 3000 C06b_modalC).1
-    UserHandlers C06b_modalC ∧ C06b_modalC.NoForge ∧ NoReadyCovered c.tr ∧ NoReadyReentry c.tr ∧ ¬ NoOpenLevel c.tr ∧
+    UserHandlers C06b_modalC ∧ C06b_modalC.NoForge ∧ NoReadyHandler C06b_modalC ∧ NoReadyCovered c.tr ∧
+    NoReadyReentry c.tr ∧ ¬ NoOpenLevel c.tr ∧
     readLines c.log = ["one".toList, "two".toList, ['c']] ∧
     c.log.reverse.filterMap (fun e => match e with | .cb s .input _ k => some (s, k) | _ => none) =
       [(0, some "one".toList), (1, some "two".toList), (1, some ['c'])] := by
@@ -138,24 +163,29 @@ example :
       NoReadyReentry (runFuel C06_orderP 2000 C06_orderC).1.tr := by
   decide +kernel
 
-/-- **The routing condition `ReadyInTop` is not enough; `NoReadyCovered` is needed.** The application registered a
-handler for `InputReceivedSignal` (it runs after the thread manager's, i.e. right after the hand-off) that opens the
-modal screen 1. Screen 0 asks in the outermost level; "one" is typed and handed off *into the outermost level, which
-is the innermost one at that moment*; then the handler opens the nested loop, the signal is covered; inside, screen 0
-is pushed again, asks again, and gets "two" and "c"; "one" arrives when the modal screen has been closed. Every
-`InputReadySignal` of the history was put into the then-innermost level (`ReadyInTop`), no dispatch is re-entered
-(`NoReadyReentry`) — and the order is violated. -/
+/-- **The routing condition `ReadyInTop` is not enough; `NoReadyCovered` is needed** — ordinary user signals, one
+modal screen and the timing of the reader thread suffice. Screen 0 asks in the outermost level. While the handler of
+user signal 0 runs, "one" is read (its `InputReceivedSignal` is enqueued); then that handler enqueues user signal 1:
+the queue is [received "one", user 1]. The hand-off puts the successful `InputReadySignal` for "one" *behind* user
+signal 1 — into the outermost level, which is the innermost one at that moment. User signal 1 is dispatched first:
+its handler opens the modal screen 1, a nested loop; "one" is now covered. Inside, screen 0 is pushed again, asks
+again and gets "two" and "c"; "one" arrives when the modal screen has been closed. Every `InputReadySignal` of the
+history was put into the then-innermost level (`ReadyInTop`), no application handler for `InputReadySignal` exists
+(`NoReadyHandler`, hence no re-entry) — and the order is violated. -/
 def C06b_coverP : Prog :=
   { cc := asciiClass,
     screens := [{ name := ['A'] }, { name := ['B'], inputRequired := false }],
     handlerScript := fun hid n =>
-      if hid = 0 ∧ n = 0 then [.pushModal 1 none]
-      else if hid = 1 ∧ n = 0 then [.push 0 none] else [],
+      if hid = 0 ∧ n = 0 then [.enq (.user 1) 0 .none 6]
+      else if hid = 1 ∧ n = 0 then [.pushModal 1 none]
+      else if hid = 2 ∧ n = 0 then [.push 0 none] else [],
     screenScript := fun scr cb n =>
-      if scr = 1 ∧ cb = .show ∧ n = 0 then { acts := [.enq (.user 1) 0 .none 6] }
-      else if scr = 1 ∧ cb = .show ∧ n = 1 then { acts := [.closeDirect] } else {} }
+      if scr = 1 ∧ cb = .show ∧ n = 0 then { acts := [.enq (.user 2) 0 .none 7] }
+      else if scr = 1 ∧ cb = .show ∧ n = 1 then { acts := [.closeDirect] } else {},
+    deliverAt := [5] }
 def C06b_coverC : Cfg :=
-  initCfg [.schedule 0 none] [(.inputReceived, .user 0, none), (.user 1, .user 1, none)] none
+  initCfg [.schedule 0 none, .enq (.user 0) 0 .none 5]
+    [(.user 0, .user 0, none), (.user 1, .user 1, none), (.user 2, .user 2, none)] none
     ["one".toList, "two".toList, ['c'], ['c']]
 
 theorem C06b_coverP_noForge : C06b_coverP.NoForge := by
@@ -173,16 +203,18 @@ theorem C06b_coverP_noForge : C06b_coverP.NoForge := by
     · simp only [List.mem_singleton] at ha; subst ha; rfl
     · split at ha
       · simp only [List.mem_singleton] at ha; subst ha; rfl
-      · cases ha
+      · split at ha
+        · simp only [List.mem_singleton] at ha; subst ha; rfl
+        · cases ha
 
 theorem C06_order_within_level_needs_NoReadyCovered :
     ∃ c, Reach C06b_coverP C06b_coverC c ∧ UserHandlers C06b_coverC ∧ NoForge C06b_coverP C06b_coverC ∧
-      ReadyInTop c.tr ∧ NoReadyReentry c.tr ∧ ¬ NoReadyCovered c.tr ∧
+      NoReadyHandler C06b_coverC ∧ ReadyInTop c.tr ∧ NoReadyReentry c.tr ∧ ¬ NoReadyCovered c.tr ∧
       readLines c.log = ["one".toList, "two".toList, ['c'], ['c']] ∧
       inputLines c.log = ["two".toList, ['c'], "one".toList, ['c']] ∧
       ¬ (inputLines c.log).Sublist (readLines c.log) :=
   ⟨(runFuel C06b_coverP 3000 C06b_coverC).1, reach_runFuel _ _ _ _ .init, by decide,
-    ⟨C06b_coverP_noForge, by decide⟩,
+    ⟨C06b_coverP_noForge, by decide⟩, by decide,
     by decide +kernel, by decide +kernel, by decide +kernel, by decide +kernel, by decide +kernel, by decide +kernel⟩
 
 /-- **`NoReadyReentry` is needed — even with a single loop level.** The application registered a handler for
@@ -211,11 +243,12 @@ theorem C06b_reentryP_noForge : C06b_reentryP.NoForge := by
 
 theorem C06_order_within_level_needs_NoReadyReentry :
     ∃ c, Reach C06b_reentryP C06b_reentryC c ∧ UserHandlers C06b_reentryC ∧ NoForge C06b_reentryP C06b_reentryC ∧
-      NoOpenLevel c.tr ∧ NoReadyCovered c.tr ∧ ReadyInTop c.tr ∧ ¬ NoReadyReentry c.tr ∧
+      ¬ NoReadyHandler C06b_reentryC ∧ NoOpenLevel c.tr ∧ NoReadyCovered c.tr ∧ ReadyInTop c.tr ∧
+      ¬ NoReadyReentry c.tr ∧
       readLines c.log = ["one".toList, "two".toList] ∧ inputLines c.log = ["two".toList, "one".toList] ∧
       ¬ (inputLines c.log).Sublist (readLines c.log) :=
   ⟨(runFuel C06b_reentryP 3000 C06b_reentryC).1, reach_runFuel _ _ _ _ .init, by decide,
-    ⟨C06b_reentryP_noForge, by decide⟩,
+    ⟨C06b_reentryP_noForge, by decide⟩, by decide,
     by decide +kernel, by decide +kernel, by decide +kernel, by decide +kernel, by decide +kernel, by decide +kernel,
     by decide +kernel⟩
 
